@@ -91,5 +91,5 @@ prop('C18', 'unstable feature does not change behaviour', thorough_reach=False, 
               jobs=dict(quick=C18_E2, thorough=C18_E2_T))])
 prop('C19', 'zero-sized elements and extreme capacities', bounds=dict(E1=E1_BOUNDS, E2='add_mod/sub_mod: all 64-bit x, y <= m, m > 0 (no bound on N)'),
      e2=[dict(tag='std', features=['std', 'alloc'], unwind=lambda n, m: 4, timeout=dict(quick=900, thorough=3600),
-              jobs=dict(quick=[('ADD_MOD', 0, [1]), ('SUB_MOD', 9, [1])], thorough=[('ADD_MOD', 0, [1]), ('SUB_MOD', 9, [1]), ('SUB_MOD', 0, [1])]))])
+              jobs=dict(quick=[('ADD_MOD', 0, [1]), ('SUB_MOD', 9, [1]), ('SUB_MOD', 0, [1])], thorough=[('ADD_MOD', 0, [1]), ('SUB_MOD', 9, [1]), ('SUB_MOD', 0, [1])]))])
 prop('C20', 'constant-time operations move O(1) elements', e1_configs_thorough=['plain'], stubs=[ROT_STUB], code_failures_count=False)
